@@ -32,6 +32,9 @@ pub fn gen_doc(lang: &str, n: usize) -> (Vec<u8>, Vec<usize>) {
         "indent" => { while i * 8 < n { edit_at.push(s.len()); s.push_str(&format!("{}:\n  y z\n  w:\n    q\n", names[i % 5])); i += 1; } }
         "glr" => { while i * 5 < n { edit_at.push(s.len()); s.push_str(&format!("{} * b;\nc d;\n", names[i % 5])); i += 1; } }
         "lexla" => { while i * 6 < n { edit_at.push(s.len()); s.push_str(&format!("{} abcd 1.5 .. /x/ -->\n", names[i % 5])); i += 1; } }
+        // four large groups (the fork at a group header is resolved inside the following large body); the edited tokens
+        // are the numbers of the entries
+        "groups" => { let per = (n / 16).max(1); for gi in 0..4 { s.push_str(if gi % 2 == 0 { "first 7 {+\n" } else { "second 7 {-\n" }); for e in 0..per { edit_at.push(s.len() + 6); s.push_str(&format!("key = {};\n", 10 + e % 80)); } s.push_str("}\n"); } }
         "lookfar" => { while i * 6 < n { edit_at.push(s.len()); s.push_str(&format!("{} bc-a! a-bc bc\n", names[i % 5])); i += 1; } }
         "pstring" => { while i * 6 < n { edit_at.push(s.len() + 2); s.push_str(&format!("%({}(b)c) w {}\n", names[i % 5], i % 77)); i += 1; } }
         _ => {}
@@ -74,6 +77,8 @@ pub fn thresholds(lang: &str) -> (usize, usize, f64) {
         "arith" => (60, 4096, 0.69),
         "jsonish" => (60, 4096, 0.69),
         "pstring" => (60, 4096, 0.34),
+        // four large groups with a GLR fork at each header: measured 15 tokens, 320 bytes, 0.776..0.80 shared at every size
+        "groups" => (60, 4096, 0.55),
         "lexla" => (60, 4096, 0.0), // every node is a leaf below a re-built repeat node: identity sharing is not asserted
         _ => (60, 4096, 0.3),
     }
@@ -86,7 +91,7 @@ pub fn worker(ctx: &Ctx, res: &mut ShardResult) {
     // `indent` is deliberately not in the calibrated set: on the reference tree its zero-width scanner tokens make the
     // re-parse lex everything after the edit (measured: all of N tokens), so no meaningful regression bound exists for it.
     // Likewise `glr`: with several stack versions alive the parser does not reuse nodes at all (measured: 80% of N lexed).
-    for lname in ["stmts", "arith", "jsonish", "pstring", "lexla"] {
+    for lname in ["stmts", "arith", "jsonish", "pstring", "lexla", "groups"] {
         let z = crate::zoo::by_name(lname).unwrap();
         let info = build_info(&z);
         let (max_lexed, max_bytes, min_shared) = thresholds(lname);
